@@ -23,6 +23,9 @@ func (c *Ctx) hookRowsEnd(P string) []Obligation {
 		{Prop: P, ID: "hooks.apps-sweep-unconditional", Fn: "(x/apps/keeper.Keeper).unstakeAllMatureApplications", Barrier: []string{`^\(x/apps/keeper\.Keeper\)\.unstakingApplicationsIterator\(k, ctx, invoke types\.Ctx\.BlockHeader\(ctx\)\.Time\)`}, Target: TargetAnyReturn(), Why: "the sweep always consults the unstaking queue up to the block time"},
 	})
 	out = append(out,
+		c.wiringRow(P, "hooks.wiring.end-blocker-installed", `^\(\*baseapp\.BaseApp\)\.SetEndBlocker\(.*, closure:\(\*app\.PocketCoreApp\)\.EndBlocker\$bound\)$`, "the application's end blocker is installed in the base app"),
+		c.wiringRow(P, "hooks.wiring.end-block-order", `^\(\*types/module\.Manager\)\.SetOrderEndBlockers\(.*, \["pos", "application", "pocketcore", "gov"\]\)$`, "the end-block order lists the nodes, apps, pocketcore and gov modules"),
+		c.wiringRow(P, "hooks.wiring.modules-registered", `^types/module\.NewManager\(\[x/auth\.NewAppModule\(.*\), x/nodes\.NewAppModule\(.*\), x/apps\.NewAppModule\(.*\), x/pocketcore\.NewAppModule\(.*\), x/gov\.NewAppModule\(.*\)\]\)$`, "every module is registered with the manager"),
 		c.edgeMust(P, "hooks.manager-endblock-every-module", "(*types/module.Manager).EndBlock", `^lt\(\(phi:rangeindex \+ 1\), builtin\.len\(m\.OrderEndBlockers\)\)$`, true, `^invoke types/module\.AppModule\.EndBlock\(`, 1, "no module in the end-block order is skipped"),
 	)
 	return out
@@ -37,7 +40,14 @@ func (c *Ctx) hookRowsBegin(P string) []Obligation {
 			Target: CallTo(`^invoke types/module\.AppModule\.BeginBlock\(`).Except(`^invoke types/module\.AppModule\.BeginBlock\(` + mod + `, ` + ectx + `, req\)$`), Why: "each module in the begin-block order gets the block's context and request"},
 	})
 	out = append(out,
+		c.wiringRow(P, "hooks.wiring.begin-blocker-installed", `^\(\*baseapp\.BaseApp\)\.SetBeginBlocker\(.*, closure:\(\*app\.PocketCoreApp\)\.BeginBlocker\$bound\)$`, "the application's begin blocker is installed in the base app"),
+		c.wiringRow(P, "hooks.wiring.begin-block-order", `^\(\*types/module\.Manager\)\.SetOrderBeginBlockers\(.*, \["pos", "application", "pocketcore", "gov"\]\)$`, "the begin-block order lists the nodes, apps, pocketcore and gov modules"),
 		c.edgeMust(P, "hooks.manager-beginblock-every-module", "(*types/module.Manager).BeginBlock", `^lt\(\(phi:rangeindex \+ 1\), builtin\.len\(m\.OrderBeginBlockers\)\)$`, true, `^invoke types/module\.AppModule\.BeginBlock\(`, 1, "no module in the begin-block order is skipped"),
 	)
 	return out
+}
+
+// wiringRow: app.NewPocketCoreApp performs the given set-up call on every path to its return.
+func (c *Ctx) wiringRow(P, rule, callRe, why string) Obligation {
+	return c.E1.Check(Row{Prop: P, ID: rule, Fn: "app.NewPocketCoreApp", Barrier: []string{callRe}, Target: TargetAnyReturn(), Why: why})
 }
